@@ -46,6 +46,12 @@ func versionCandidates(ctx *Ctx, e *Eco, r *RNG, nGen int, exhLen int) (*Pool, [
 		}
 		add(s)
 	}
+	// a non-ASCII rune inside an accepted string (domain.go)
+	for i, s := range p.Strs {
+		if i%5 == 2 {
+			add(nonASCIIInside(r, s))
+		}
+	}
 	// padded variants of accepted strings
 	for i, s := range p.Strs {
 		if i%4 == 0 {
@@ -89,7 +95,7 @@ func corrR(ctx *Ctx, e *Eco, nGen int, exhLen int, nProbe int) {
 	seen := map[string]bool{}
 	var ranges []string
 	add := func(s string) {
-		if !seen[s] && isASCII(s) {
+		if !seen[s] && rInDomain(e.Name, s) {
 			seen[s] = true
 			ranges = append(ranges, s)
 		}
@@ -104,6 +110,8 @@ func corrR(ctx *Ctx, e *Eco, nGen int, exhLen int, nProbe int) {
 			s = mutate(r, s)
 		case r.Chance(5):
 			s = r.Pick([]string{" ", "\t", "\n"}) + s + r.Pick([]string{" ", "", "\n"})
+		case r.Chance(4):
+			s = nonASCIIInside(r, s)
 		}
 		add(s)
 	}
